@@ -67,10 +67,15 @@ func (s *heapSys) Do(o tt.Op) tt.Res {
 		s.c = o.A[0]
 		s.h.Convert(heapCmps[s.c])
 		return tt.Res{Ok: true}
-	case "merge", "meld":
-		other := heap.FromSlice(append([]int{}, o.A...), heapCmps[s.c])
+	case "merge", "meld", "mergex", "meldx":
+		// the second heap has the same comparator, or (mergex/meldx) the opposite one: the result follows the receiver's
+		oc := s.c
+		if o.N == "mergex" || o.N == "meldx" {
+			oc = []int{1, 0, 1}[s.c]
+		}
+		other := heap.FromSlice(append([]int{}, o.A...), heapCmps[oc])
 		var m *heap.Heap[int]
-		if o.N == "merge" {
+		if o.N == "merge" || o.N == "mergex" {
 			m = s.h.Merge(other)
 		} else {
 			m = s.h.Meld(other)
@@ -164,8 +169,8 @@ func heapExplorer(depth int, tier string) *tt.Explorer {
 			if len(path) > d {
 				return nil
 			}
-			r := []tt.Op{op("pop"), op("clear"), op("merge", 11, 20), op("meld", 31, 10, 10)}
-			for _, v := range heapVals {
+			r := []tt.Op{op("pop"), op("clear"), op("merge", 11, 20), op("meld", 31, 10, 10), op("meldx", 10, 20, 31), op("mergex", 20, 11)}
+			for _, v := range append([]int{0}, heapVals...) { // the zero value is a value like any other
 				r = append(r, op("push", v), op("delete", v))
 			}
 			for c := 0; c < 3; c++ {
